@@ -133,7 +133,7 @@ def run_(v, pid, tier):
     # --- GEN: graph walk
     es, desired, r = cc.edges(tier)
     segs = cc.covering_walks(es)
-    tick = 1000 if tier == "quick" else 500
+    tick = 1000
     ops = []
     for seg in segs:
         ops.append({"op": "reset", "desired": desired, "direct": True})
